@@ -22,11 +22,10 @@ git stash pop -q
 # run my checks on /repo with the patch applied
 cd /repo && git apply $OUT/patch.diff || { echo "PATCH DOES NOT APPLY"; exit 3; }
 export VERIF_DIR=$(mktemp -d /tmp/seedout.XXXX); cp /verif/known_findings.txt $VERIF_DIR/
-FIRED=""
-for p in C01 C02 C03 C04 C05 C06 C07 C08 C09 C10 C11 C12 C13 C14 C15 C16 C17 C18 C19 C20; do
-  /verif/bin/smtpverif -property $p > $VERIF_DIR/$p.log 2>&1; rc=$?
-  if [ $rc -ne 0 ]; then FIRED="$FIRED $p"; echo "--- $p exit=$rc"; grep -E "^(VIOLATED|UNDECIDED)" $VERIF_DIR/$p.log | cut -c1-260 | head -4; fi
-done
+/verif/bin/smtpverif -property all > $VERIF_DIR/all.log 2>&1
+FIRED=$(grep -E "^== C[0-9]+: " $VERIF_DIR/all.log | grep -v " 0 violations" | sed -E 's/^== (C[0-9]+):.*/\1/' | tr '\n' ' ')
+grep -E "^(VIOLATED|UNDECIDED|VIOLATION)" $VERIF_DIR/all.log | awk '/^VIOLATION/{print "--- " $2; next} {print}' | cut -c1-260 | head -24
+FIRED=" $FIRED"
 git -C /repo checkout -- . ; git -C /repo status --short | head -3
 rm -rf $VERIF_DIR
 echo "FIRED:${FIRED:- none}"
